@@ -33,10 +33,7 @@ def url(path):
 def norm_binding(v):
     if v is None or v == "":
         return []
-    segs = v.split("/")
-    if segs and segs[-1] == "":
-        segs.pop()
-    return segs
+    return v.split("/")       # (the tolerated trailing slash is not a segment: a value that ends in one is not what the specification binds)
 
 
 def consts(ctx):
